@@ -403,7 +403,55 @@ def experiment(args):
     return dict(k=k, rc=rc, child=out, rec=mask(scenario, rec))
 
 
+def torn_experiment(args):
+    lib, base, wdroot, rel, data, L = args
+    wd = os.path.join(wdroot, "torn-%d" % L)
+    shutil.copytree(base, wd)
+    path = os.path.join(wd, "tokens", rel)
+    with open(path, "wb") as f:
+        f.write(data[:L])
+    lock = path[:-len(".object")] + ".lock"
+    open(lock, "ab").close()
+    rec = run_recover(lib, wd)
+    shutil.rmtree(wd, ignore_errors=True)
+    return dict(L=L, rec=rec)
+
+
+def torn_main(lib, outp, workdir, shim, jobs):
+    """Torn writes: the file of an object that was being created holds only the first L bytes of what the call would have
+    written - for EVERY L.  `boundary`: the cut falls on the start of an attribute record or inside the record's first
+    word (the reader takes a short first word for the end of the file, so this is the same file as the one cut at the record
+    start - what the as-built multi-step creation can leave anyway).  (Crash points at operation boundaries cannot produce these; a write torn by the kernel can.)"""
+    from . import tokdec
+    sc = "CreateObjectPrivate"
+    base = os.path.join(workdir, "base")
+    prepare(lib, base)
+    old = run_recover(lib, base)
+    wd = os.path.join(workdir, "log-torn")
+    shutil.copytree(base, wd)
+    before = listing(os.path.join(wd, "tokens"))
+    log = os.path.join(workdir, "ops-torn.ndjson")
+    rc, out = run_child(lib, wd, sc, "log", 0, shim, log=log)
+    new = run_recover(lib, wd)
+    added = sorted(f for f in listing(os.path.join(wd, "tokens")) - before if f.endswith(".object"))
+    f = open(outp, "w")
+    ops, newfiles = normalise_ops(log, before) if os.path.exists(log) else ([], [])
+    f.write(json.dumps(dict(e="Log", scenario=sc, rv=out.get("rv", "?"), ops=ops, newfiles=newfiles, old=old, new=new, ro=False)) + "\n")
+    if len(added) == 1:
+        rel = added[0]
+        data = open(os.path.join(wd, "tokens", rel), "rb").read()
+        bounds = set(tokdec.record_boundaries(data))
+        with cf.ThreadPoolExecutor(max_workers=jobs) as ex:
+            results = list(ex.map(torn_experiment, [(lib, base, workdir, rel, data, L) for L in range(0, len(data))]))
+        for r in results:
+            f.write(json.dumps(dict(e="Torn", scenario=sc, L=r["L"], size=len(data), boundary=any(b <= r["L"] < b + 8 for b in bounds), rec=r["rec"])) + "\n")
+    shutil.rmtree(wd, ignore_errors=True)
+    f.close()
+
+
 def main():
+    if len(sys.argv) > 6 and sys.argv[6] == "torn":
+        return torn_main(sys.argv[1], sys.argv[3], sys.argv[4], sys.argv[7], int(sys.argv[8]) if len(sys.argv) > 8 else 12)
     if sys.argv[1] == "--child":
         return child(*sys.argv[2:7])
     if sys.argv[1] == "--recover":
